@@ -557,7 +557,103 @@ pub(crate) fn r15_white_space_modes() {
     kani::cover!(k == 2);
 }
 
+// ---------------------------------------------------------------------
+// Native replay targets for the MIR-level checks (mirsym): plain functions
+// that drive the real code with the solver's model.
+// ---------------------------------------------------------------------
+
+fn m_mk_cell(colspan: usize, size: usize, min_width: usize, mark: bool) -> RenderTableCell {
+    let mut style: ComputedStyle = Default::default();
+    style.internal_pre = mark;
+    RenderTableCell {
+        colspan,
+        content: Vec::new(),
+        size_estimate: Cell::new(Some(SizeEstimate { size, min_width, prefix_size: 0 })),
+        col_width: None,
+        style,
+    }
+}
+
+/// RenderTableRow::into_cells on a row of up to 3 cells over up to 4 columns.
+pub(crate) fn m_into_cells() {
+    let vertical: bool = kani::any();
+    let ncells: u8 = kani::any();
+    let ncols: u8 = kani::any();
+    kani::assume(ncells >= 1 && ncells <= 3 && ncols >= 1 && ncols <= 4);
+    let spans: [usize; 3] = [kani::any(), kani::any(), kani::any()];
+    let ws: [usize; 4] = [kani::any(), kani::any(), kani::any(), kani::any()];
+    let mut cells = Vec::new();
+    let mut tot = 0usize;
+    for k in 0..ncells as usize {
+        kani::assume(spans[k] >= 1 && spans[k] <= ncols as usize);
+        tot += spans[k];
+        cells.push(m_mk_cell(spans[k], 0, 0, k == 0));
+    }
+    kani::assume(tot <= ncols as usize);
+    let col_sizes: Vec<usize> = ws[..ncols as usize].to_vec();
+    let row = RenderTableRow { cells, col_sizes: Some(col_sizes.clone()), style: Default::default() };
+    let out = row.into_cells(vertical);
+    let mut colno = 0usize;
+    let mut j = 0usize;
+    for k in 0..ncells as usize {
+        let base: usize = if vertical { col_sizes[colno] } else { col_sizes[colno..colno + spans[k]].iter().sum() };
+        if base > 0 {
+            let cell = match &out[j].info {
+                RenderNodeInfo::TableCell(c) => c,
+                _ => panic!("not a cell"),
+            };
+            assert!(cell.style.internal_pre == (k == 0), "cells keep their order");
+            let w = cell.col_width.expect("width assigned");
+            if vertical {
+                assert!(w <= col_sizes[0], "stacked cell wider than the table: {} > {}", w, col_sizes[0]);
+                assert!(w >= 1);
+            } else {
+                assert!(w == base + spans[k] - 1, "cell width {} != sum of columns {} + separators", w, base);
+            }
+            j += 1;
+        }
+        colno += spans[k];
+    }
+    assert!(j == out.len(), "exactly the zero-width cells are skipped");
+}
+
+/// render_table_tree on a one-row, two-column table whose first column has the given estimate.
+pub(crate) fn m_table_col_width() {
+    let size: usize = kani::any();
+    let min_width: usize = kani::any();
+    let width: usize = kani::any();
+    let tot: usize = kani::any();
+    kani::assume(width >= 1 && tot >= size && min_width <= size);
+    let row = RenderTableRow {
+        cells: vec![m_mk_cell(1, size, min_width, true), m_mk_cell(1, tot - size, 0, false)],
+        col_sizes: None,
+        style: Default::default(),
+    };
+    let table = RenderTable { rows: vec![row], num_columns: 2, size_estimate: Cell::new(None) };
+    let mut opts = RenderOptions::default();
+    opts.draw_borders = false;
+    let sub = SubRenderer::new(width, opts, TrivialDecorator::new());
+    let mut tr = TextRenderer::new(sub);
+    let r = render_table_tree(&mut tr, table, &mut std::io::sink());
+    let children = match r {
+        Ok(TreeMapResult::PendingChildren { children, .. }) => children,
+        _ => panic!("render_table_tree failed"),
+    };
+    let (cols, vert) = match &children[0].info {
+        RenderNodeInfo::TableRow(tr, v) => (tr.col_sizes.clone().unwrap(), *v),
+        _ => panic!("not a row"),
+    };
+    if !vert {
+        assert!(cols[0] + cols[1] + 1 <= width || cols[0] + cols[1] <= width, "columns exceed the table width");
+        assert!(cols[0] <= size, "column wider than its content");
+        if size > 0 && min_width > 0 {
+            assert!(cols[0] >= 1, "a column with content got no space");
+        }
+    }
+}
+
 crate::verif_common::registry! {
+    m_into_cells, m_table_col_width,
     r1_cascade_pairs, r1_cascade_triples, r2_specificity_order, r2_specificity_add,
     r3_ol_prefix_total, r4_ol_prefix_is_max,
     r9_tree_map_reduce_order, r12_config_plumbing, r12_width_zero,
